@@ -79,11 +79,11 @@ theorem Seg.Inv.msgCount {cfg : Cfg} {s : Seg} (h : s.Inv cfg) (hs : ∀ m ∈ s
     omega
 
 theorem Seg.Inv.log_consecutive {cfg : Cfg} {s : Seg} (h : s.Inv cfg) :
-    consecutiveFrom s.start (batchesMsgs s.log) := (consecutiveFrom_append.1 h.offsets).1
+    consecutiveFrom s.start (batchesMsgs s.log) := (consecutiveFrom_append_iff.1 h.offsets).1
 
 theorem Seg.Inv.acc_consecutive {cfg : Cfg} {s : Seg} (h : s.Inv cfg) :
     consecutiveFrom (s.start + (batchesMsgs s.log).length) s.accMsgs :=
-  (consecutiveFrom_append.1 h.offsets).2
+  (consecutiveFrom_append_iff.1 h.offsets).2
 
 /-! ## tiling -/
 
@@ -123,7 +123,7 @@ theorem tiled.consecutive {a : Nat} {l : List Seg} (h : tiled a l)
   | cons s l ih =>
     obtain ⟨h1, _, h3⟩ := h
     subst h1
-    rw [segsMsgs_cons, consecutiveFrom_append]
+    rw [segsMsgs_cons, consecutiveFrom_append_iff]
     exact ⟨hc s (by simp), ih h3 (fun t ht => hc t (by simp [ht]))⟩
 
 theorem tiled_append {a : Nat} {l1 l2 : List Seg} :
